@@ -659,8 +659,45 @@ Proof.
         eapply steps_cons; [eapply ok_remove; exact Hold|].
         apply steps_nil.
       * apply raise_plain. apply unwind_intro with (kM := 0) (kT := 0) (kO := 0).
-    + cbn [drop_all_buffers disk]. rewrite !flush_noop by reflexivity. reflexivity.
+    + cbn [drop_all_buffers disk].
+      rewrite (flush_noop 0 POther) by reflexivity.
+      rewrite (flush_noop 0 PT) by reflexivity.
+      rewrite (flush_noop 0 PM) by reflexivity. reflexivity.
 Qed.
+
+(* the checker on near misses of the accepted list *)
+Example rejects_replace_before_close :
+  safe_ops {| main_ops := [Load PM; Encode; OpenTrunc PT; WriteAll PT; Replace PT PM; Close PT];
+              cleanup_ops := [] |} = false.
+Proof. vm_compute. reflexivity. Qed.
+Example rejects_missing_write :
+  safe_ops {| main_ops := [Load PM; Encode; OpenTrunc PT; Close PT; Replace PT PM];
+              cleanup_ops := [] |} = false.
+Proof. vm_compute. reflexivity. Qed.
+Example rejects_double_write :
+  safe_ops {| main_ops := [Load PM; Encode; OpenTrunc PT; WriteAll PT; WriteAll PT; Close PT;
+                           Replace PT PM]; cleanup_ops := [] |} = false.
+Proof. vm_compute. reflexivity. Qed.
+Example rejects_append_instead_of_trunc :
+  safe_ops {| main_ops := [Load PM; Encode; OpenAppend PT; WriteAll PT; Close PT; Replace PT PM];
+              cleanup_ops := [] |} = false.
+Proof. vm_compute. reflexivity. Qed.
+Example rejects_effect_before_encode :
+  safe_ops {| main_ops := [Load PM; OpenTrunc PT; Encode; WriteAll PT; Close PT; Replace PT PM];
+              cleanup_ops := [] |} = false.
+Proof. vm_compute. reflexivity. Qed.
+Example rejects_cleanup_touching_metafile :
+  safe_ops {| main_ops := main_ops edit_ops_fixed; cleanup_ops := [RemoveIfExists PM] |} = false.
+Proof. vm_compute. reflexivity. Qed.
+Example rejects_unclassified :
+  safe_ops {| main_ops := [Load PM; Encode; OpenTrunc POther; WriteAll POther; Close POther;
+                           Replace POther PM]; cleanup_ops := [] |} = false /\
+  safe_ops {| main_ops := main_ops edit_ops_fixed ++ [Unknown]; cleanup_ops := [] |} = false.
+Proof. vm_compute. split; reflexivity. Qed.
+Example rejects_second_replace :
+  safe_ops {| main_ops := main_ops edit_ops_fixed ++ [OpenTrunc PT; WriteAll PT; Close PT;
+                                                      Replace PT PM]; cleanup_ops := [] |} = false.
+Proof. vm_compute. reflexivity. Qed.
 
 Print Assumptions safe_ops_crash.
 Print Assumptions safe_ops_error_exact.
